@@ -6,4 +6,5 @@ def specs_direct(tier):
     t = 60000 if tier == "thorough" else 20000
     s = [(DR, "unit_grouped_greens_functions", {"nsub": n, "conjugate": c, "timeout_ms": t}) for n, c in ((1, False), (1, True), (2, True), (3, False))]
     s += [(DR, "unit_direct_solve", {"nsub": n, "nonhermitian": nh, "timeout_ms": t}) for n, nh in ((1, False), (1, True), (2, True), (3, False))]
+    s += [("contracts.kpm", "unit_greens_function", {"timeout_ms": t})]
     return s
